@@ -65,7 +65,9 @@ def gen(t, tier):
     sc = {'service': t.pick(SERVICES), 'backend': backend,
           'meta_size': t.pick([[1, 1], [1, 1], [2, 2]]), 'refresh': t.pick([None, 30, 30, 3600]),
           'fill': t.pick(['#ff0000', 'transparent']), 'coords': coords, 'ops': [], 'frac': t.pick([0.0, 0.4]),
-          'ocean': backend == 'file-link' or bool(t.chance(0.15))}
+          'ocean': backend == 'file-link' or bool(t.chance(0.15)),
+          # a cache merged from two sources; in upstream-failure periods only the overlay source fails
+          'two_sources': backend != 'file-link' and bool(t.chance(0.3))}
     if backend == 'file-link':
         # make sure at least two requested tiles are constant-colour ones (they share the single-colour files)
         for x in range(n):
@@ -190,12 +192,19 @@ def run(sc, tape):
     conf = F.base_conf(cache_conf, meta_size=sc['meta_size'],
                        refresh_before={'seconds': sc['refresh']} if sc['refresh'] else None,
                        on_error_color=sc['fill'], link=sc['backend'] == 'file-link')
+    if sc.get('two_sources'):
+        conf['sources']['src2'] = {'type': 'wms', 'req': {'url': 'http://upstream.sim/service?', 'layers': 'b'},
+                                   'supported_srs': ['EPSG:3857'],
+                                   'on_error': {500: {'response': sc['fill'], 'cache': False}}}
+        conf['caches']['c1']['sources'] = ['src', 'src2']
+        http.fail_layers = set(['b'])
     coords = [tuple(c) for c in sc['coords']]
     urls = [url_for(sc['service'], c) for c in coords]
     last = {}            # url index -> last non-creating 200 response of the current epoch
     prev = {}            # url index -> validators of an older epoch: {'etag', 'lm'}
     judged = [0]
     fills = [0]
+    tainted = {}         # url index -> epoch at which a response containing an error fill was served
     probes = {}
     v = None
 
@@ -232,6 +241,17 @@ def run(sc, tape):
             return kind, val
         if kind not in ('tile', 'ocean'):
             raise Bad('undecodable-body', '%s: body is not a tile image' % what)
+        if any(e['ok'] is False for e in calls):
+            # part of this image is an uncacheable error fill (one of the merged sources failed)
+            fills[0] += 1
+            if 'no-store' not in cc:
+                raise Bad('fill-image-cacheable', '%s: an upstream source failed while this response was built (its part is an '
+                          'uncached fill image) but it was sent with Cache-Control %r, ETag %r instead of no-store directives' % (
+                              what, cc, hd.get('etag')))
+            return 'fill', val
+        if tainted.get(u) == epoch(u) and not calls:
+            raise Bad('fill-image-from-cache', '%s: the previous response for this tile contained an uncached fill image (a '
+                      'source had failed) and this one was served from the cache without asking the upstream again' % what)
         if kind == 'ocean' and not (sc.get('ocean') and U.is_ocean_tile(coords[u])):
             raise Bad('undecodable-body', '%s: constant-colour body for a tile that is not an ocean tile' % what)
         ep = epoch(u)
@@ -245,6 +265,11 @@ def run(sc, tape):
                                   what, l['etag'], hd.get('etag'), l['lm'], hd.get('last-modified'), l['body'] == body))
             if l is not None and l['epoch'] != ep and l['etag'] is not None:
                 prev[u] = {'etag': l['etag'], 'lm': l['lm']}
+                # (a backend with whole-second timestamps cannot tell two writes of equal size within one second apart)
+                if l['etag'] == hd.get('etag') and l['body'] != body and \
+                        (sc['backend'].startswith('file') or l['lm'] != hd.get('last-modified')):
+                    raise Bad('etag-unchanged-after-rewrite', '%s: the tile was rewritten with different content but still has the '
+                              'ETag %r: a client revalidating its old copy is answered 304' % (what, l['etag']))
             last[u] = {'epoch': ep, 'etag': hd.get('etag'), 'lm': hd.get('last-modified'), 'body': body, 'val': val}
         return kind, val
 
@@ -256,8 +281,12 @@ def run(sc, tape):
             if kind == 'fill':
                 return None
             if not any(e['ok'] for e in calls):
+                if hd.get('etag') is None and hd.get('last-modified') is None:
+                    # no validators offered at all (e.g. a WMS-C image that had to be re-merged): nothing to revalidate
+                    probes['responses_without_validators'] = probes.get('responses_without_validators', 0) + 1
+                    return None
                 if hd.get('etag') is None or hd.get('last-modified') is None:
-                    raise Bad('missing-validators', '%s: cached tile served without ETag/Last-Modified: %r' % (what, hd))
+                    raise Bad('missing-validators', '%s: cached tile served with only one of ETag/Last-Modified: %r' % (what, hd))
                 return {'etag': hd.get('etag'), 'lm': hd.get('last-modified'), 'val': val, 'epoch': epoch(u), 'body': body}
         return None
 
